@@ -836,4 +836,8 @@ def run(facts, tier, ctx):
             rr = RuleResult("UNDECIDED/" + fn.__name__, "the effect engine could not structure a body")
             rr.fail(Finding(rr.rule, fn.__name__, "undecided", 0, "", "fail closed: %s" % e))
             out.append(rr)
+    # the parser rebuilds every predictive subframe with residual warm-up = predictor order = warm-up sample count; the
+    # encoder's construction sites must agree or the emitted frame does not decode to the input (C02 AGREE)
+    from . import c02
+    out += c02.predictor_order(facts, c02.oracle())
     return out
